@@ -28,6 +28,16 @@ FUNCTIONS = [
     ('EdifNamespace', 'lookup', 'method', [('element_type', 'is:Foreign'), ('key', 'key'), ('value', 'is:Foreign')]),
 ]
 NS_CLASSES = ('DefaultNamespace', 'EdifNamespace')
+FILES['NamespaceManager'] = 'spydrnet/plugins/namespace_manager/__init__.py'
+_PAR = 'is:Netlist|Library|Definition'
+FUNCTIONS += [
+    ('NamespaceManager', 'lookup', 'method', [('parent', _PAR), ('element_type', 'is:Foreign'), ('key', 'key'), ('value', 'is:Foreign')]),
+    ('NamespaceManager', 'remove', 'method', [('element', _EL), ('key', 'none'), ('parent', _PAR)]),
+    ('NamespaceManager', 'add', 'method', [('parent', _PAR), ('child', _EL)]),
+    ('NamespaceManager', 'dictionary_set', 'method', [('element', _EL), ('key', 'key'), ('value', 'is:Foreign')]),
+    ('NamespaceManager', 'dictionary_delete', 'method', [('element', _EL), ('key', 'key')]),
+    ('NamespaceManager', 'dictionary_pop', 'method', [('element', _EL), ('key', 'key')]),
+]
 
 
 class NSSpec(IRSpec):
@@ -66,11 +76,41 @@ class NSSpec(IRSpec):
     def dict_value(self, se, st, val, cv):
         return ('hdict', val, 'inner') if len(cv) > 2 and cv[2] == 'outer' else R(val)
 
+    def on_dict_store(self, se, st, cv, k, v):
+        h = st.heap
+        if len(cv) > 2 and cv[2] == 'outer' and v[0] == 'hdict':
+            from z3 import IntVal
+            o, d = cv[1], v[1]
+            h['g_role'] = Store(h['g_role'], d, IntVal(2)); h['g_own'] = Store(h['g_own'], d, h['g_own'][o])
+            h['g_kind'] = Store(h['g_kind'], d, h['g_kind'][o]); h['g_tkey'] = Store(h['g_tkey'], d, k)
+
+    def global_name(self, se, st, name):
+        if name in ('Netlist', 'Library', 'Definition', 'Port', 'Cable', 'Instance'): return ('class', name)
+        return super().global_name(se, st, name)
+
     def new_dict(self, se, st):
         c = self.ctx
         d = self.new_object(se, st, 'Dict')
         st.heap['dk'] = Store(st.heap['dk'], d, K(c.Ref, False))
         return ('hdict', d, 'inner')
+
+    def obj_attr(self, se, st, v, name, cont):
+        """attributes of the NamespaceManager object itself"""
+        c = self.ctx
+        if name == 'namespaces': return cont(st, ('hdict', self.nsmap(), 'nsmap'))
+        if name == 'ignore_ns_change': return cont(st, B(BoolVal(False)))
+        if name == 'policies': return cont(st, ('policies',))
+        raise Unsupported('NamespaceManager.%s' % name)
+
+    def nsmap(self):
+        if not hasattr(self, '_nsmap'): self._nsmap = Const('NSMAP', self.ctx.Ref)
+        return self._nsmap
+
+    def policy_names(self, se):
+        if not hasattr(self, '_pn'):
+            self._pn = {n: se._const_box(('box', n)) for n in ('EDIF', 'DEFAULT')}
+            self.ctx.axioms.append(self.sv(self._pn['EDIF']) != self.sv(self._pn['DEFAULT']))
+        return self._pn
 
     def getattr_hook(self, se, st, v, name, cont):
         c = self.ctx; r = v[1]
@@ -81,8 +121,61 @@ class NSSpec(IRSpec):
             return True
         return NotImplemented
 
+    def legal_id(self, v):
+        if not hasattr(self, '_legal'): self._legal = Function('legal_edif_identifier', self.ctx.Ref, BoolSort())
+        return self._legal(self.sv(v))
+
+    def contract_for(self, se, st, fi):
+        if fi.name == '_check_EDIF_identifier':
+            # the lexical rule itself (`&?[0-9A-Za-z_]+`, length limits) is C17's LEGAL; here it is an uninterpreted predicate of the value
+            return lambda se_, st_, fi_, args, kw, cont: cont(st_, B(self.legal_id(args[-1][1])))
+        return None
+
+    def policy_call(self, se, st, recv, name, args, kw, cont):
+        """classmethod call on self.policies[<policy name>]: dispatch on the policy name"""
+        c = self.ctx; pn = self.policy_names(se); v = recv[1]
+        for pname, cls_ in (('EDIF', 'EdifNamespace'), ('DEFAULT', 'DefaultNamespace')):
+            s2 = st.fork(); s2.pc.append(self.sv(v) == self.sv(pn[pname]))
+            if se.sat(s2):
+                fi = self.ct.find(cls_, name, 'classmethod')
+                if fi is None: raise Unsupported('%s.%s' % (cls_, name))
+                se.call_fn(s2, fi, [('clsobj', cls_)] + args, cont, kw)
+
+    POLICY_METHODS = ('no_conflict', 'update', 'remove', 'lookup')
+
+    def in_manager(self, st):
+        return bool(st.frames) and st.frames[0].fi.cls == 'NamespaceManager'
+
+    def policy_contract(self, se, st, N, name, args, cont):
+        """a policy-object method called from a NamespaceManager hook is used through its proved contract (no inlining, no fork):
+        pure methods return their specified value; update/remove replace the dictionary part of the heap by one that satisfies
+        the table-level postcondition, keeps the separation of dictionary objects and leaves everything else alone"""
+        c = self.ctx
+        pre = dict(st.heap)
+        class _S: pass
+        def clauses(cls_, heap, val):
+            fake = _S(); fake.heap = heap
+            return [g for _, nm, g in post(cls_, name)(c, self, pre, fake, 'normal', [R(N)] + list(args), val) if nm != 'does-not-raise']
+        if name in ('no_conflict', 'lookup'):
+            if name == 'no_conflict':
+                res = c.fresh('noconf', BoolSort()); val = B(res)
+            else:
+                res = c.fresh('lookup', c.Ref); val = R(res)
+            for cl in NS_CLASSES:
+                st.pc.append(Implies(c.cls(N) == c.C[cl], And(clauses(cl, pre, val))))
+            return cont(st, val)
+        for f_ in ('dk', 'dv', 'alloc', 'g_role', 'g_own', 'g_kind', 'g_tkey'):
+            st.heap[f_] = c.fresh(f_ + '_pc', pre[f_].sort())
+        x = Const('xq_pc', c.Ref)
+        st.pc.append(ForAll([x], Implies(pre['alloc'][x], st.heap['alloc'][x]), patterns=[pre['alloc'][x]]))
+        for cl in NS_CLASSES:
+            st.pc.append(Implies(c.cls(N) == c.C[cl], And(clauses(cl, st.heap, None))))
+        cont(st, se.none())
+
     def method_hook(self, se, st, recv, name, args, kw, cont):
         c = self.ctx
+        if name in self.POLICY_METHODS and self.in_manager(st) and recv[0] == 'ref':
+            self.policy_contract(se, st, recv[1], name, args, cont); return True
         if name == 'lower':
             cont(st, R(self.lowerf(recv[1]))); return True
         handled = False
@@ -111,16 +204,14 @@ def tab(spec, h, N, T, k, edif=False):
     return If(And(h['dk'][D][T], h['dk'][inner][k]), h['dv'][inner][k], c.null)
 
 
-def separation(ctx, spec, h0):
+def separation(ctx, spec, h0, named=False):
     """distinct policy objects own distinct dictionaries; the inner dictionaries of one object are pairwise distinct objects and
-    differ from every outer dictionary; stored elements are not None.  Stated through ghost 'owner' functions of a dictionary
-    object (single-trigger axioms; injectivity follows by congruence): an inner dictionary knows (policy object, table kind, type),
-    an outer one (policy object, table kind); the two roles are disjoint."""
-    from z3 import IntSort, IntVal
+    differ from every outer dictionary and from the manager's map; stored elements are not None.  Stated through the ghost
+    ownership fields of a dictionary object (single-trigger clauses; injectivity follows by congruence)."""
+    from z3 import IntVal
     c = ctx; A = h0['alloc']
-    N, t, k = (Const(n, c.Ref) for n in ('Nq', 'tq', 'kq'))
-    role = Function('dict_role', c.Ref, IntSort())            # 1 = outer, 2 = inner
-    own = Function('dict_owner', c.Ref, c.Ref); kind = Function('dict_kind', c.Ref, IntSort()); tkey = Function('dict_type', c.Ref, c.Ref)
+    N, t, k, P = (Const(n, c.Ref) for n in ('Nq', 'tq', 'kq', 'Pq'))
+    role, own, kind, tkey, par = h0['g_role'], h0['g_own'], h0['g_kind'], h0['g_tkey'], h0['g_par']
     isNSg = lambda n: And(A[n], c.isa(n, *NS_CLASSES))
     out = []
     for e1 in (False, True):
@@ -128,18 +219,21 @@ def separation(ctx, spec, h0):
         outer = lambda n, e=e1: h0['f_edif' if e else 'f_namespaces'][n]
         inner = lambda n, t_, e=e1: h0['dv'][outer(n)][t_]
         has = lambda n, t_, e=e1: h0['dk'][outer(n)][t_]
-        ev = IntVal(1 if e1 else 0)
-        out.append(ForAll([N], Implies(isNS(N), And(A[outer(N)], c.isa(outer(N), 'Dict'), role(outer(N)) == 1, own(outer(N)) == N,
-                                                    kind(outer(N)) == ev)), patterns=[outer(N)]))
-        out.append(ForAll([N, t], Implies(And(isNS(N), has(N, t)), And(A[inner(N, t)], c.isa(inner(N, t), 'Dict'), role(inner(N, t)) == 2,
-                                                                     own(inner(N, t)) == N, kind(inner(N, t)) == ev, tkey(inner(N, t)) == t)),
-                          patterns=[inner(N, t)]))
-        out.append(ForAll([N, t, k], Implies(And(isNS(N), has(N, t), h0['dk'][inner(N, t)][k]),
+        ev = IntVal(1 if e1 else 0); tag = 'identifiers' if e1 else 'names'
+        out.append(('sep.outer.' + tag, ForAll([N], Implies(isNS(N), And(A[outer(N)], c.isa(outer(N), 'Dict'), role[outer(N)] == 1, own[outer(N)] == N,
+                                                    kind[outer(N)] == ev)), patterns=[outer(N)])))
+        out.append(('sep.inner.' + tag, ForAll([N, t], Implies(And(isNS(N), has(N, t)), And(A[inner(N, t)], c.isa(inner(N, t), 'Dict'), role[inner(N, t)] == 2,
+                                                                     own[inner(N, t)] == N, kind[inner(N, t)] == ev, tkey[inner(N, t)] == t)),
+                          patterns=[inner(N, t)])))
+        out.append(('sep.values.' + tag, ForAll([N, t, k], Implies(And(isNS(N), has(N, t), h0['dk'][inner(N, t)][k]),
                                              And(h0['dv'][inner(N, t)][k] != c.null, A[h0['dv'][inner(N, t)][k]])),
-                          patterns=[h0['dv'][inner(N, t)][k]]))
+                          patterns=[h0['dv'][inner(N, t)][k]])))
+    M = spec.nsmap()
+    out.append(('sep.manager-map', And(A[M], c.isa(M, 'Dict'), role[M] == 3)))
+    out.append(('sep.manager-map.values', ForAll([P], Implies(h0['dk'][M][P], And(isNSg(h0['dv'][M][P]), par[h0['dv'][M][P]] == P)), patterns=[h0['dv'][M][P]])))
     x = Const('xq_sep', c.Ref)
-    out.append(ForAll([x], Implies(c.isa(x, 'Netlist', 'Library', 'Definition', 'Port', 'Cable', 'Instance'), spec.sv(x) == x), patterns=[spec.sv(x)]))
-    return out
+    out.append(('sep.ir-values', ForAll([x], Implies(c.isa(x, 'Netlist', 'Library', 'Definition', 'Port', 'Cable', 'Instance'), spec.sv(x) == x), patterns=[spec.sv(x)])))
+    return out if named else [g for _, g in out]
 
 
 def extra_pre(ctx, spec, h0):
@@ -162,6 +256,10 @@ def post(cls_, fname):
             body = tab(spec, h, N, T, k, edif) == tab(spec, h0, N, T, k, edif)
             if exc is not None: body = Implies(Not(exc(N, T, k)), body)
             return ForAll([N, T, k], Implies(isNS0(N), body))
+        M_ = spec.nsmap()
+        out.append(('C10', 'manager-map-untouched', And(h['dk'][M_] == h0['dk'][M_], h['dv'][M_] == h0['dv'][M_], h['g_par'] == h0['g_par'])))
+        for nm_, g_ in separation(c, spec, h, named=True):
+            out.append(('C10', 'preserved.' + nm_, g_))
         if fname in ('no_conflict', 'lookup'):
             out += [('C10', 'pure.names', unchanged(False)), ('C10', 'pure.identifiers', unchanged(True))]
         if fname == 'no_conflict':
